@@ -44,3 +44,13 @@ Theorem C09_stream_read_loop_terminates : forall reads buf,
   snd (read_all (S (length (buf ++ concat reads))) reads buf) <> EndFuel.
 Proof. exact read_loop_terminates. Qed.
 Print Assumptions C09_stream_read_loop_terminates.
+
+(* ---------- well-formed requests that put the server into unusual states (RFC 6062 path) ---------- *)
+From Turn Require Import TcpRelay C16Check C09TcpCheck TcpIso TcpTrace.
+(* on every history of TCP-relay events (duplicate Connect, binds of unknown or foreign ids, id collisions, dial failures,
+   expiries, any number of allocations; connection ids fresh as for C16) the allocation manager never wedges: no step of the
+   model's trace shows "no answer because the manager is blocked", and the correspondence runner accepts the trace. The
+   same predicate is evaluated on the real server's traces by TestVerif_C09TCP. *)
+Theorem C09_tcp_requests_never_wedge_on_every_model_trace : forall h, cids_fresh [] h -> C09TcpCheck.run (tmodel_case h) = (true, true).
+Proof. exact c09_tcp_on_model. Qed.
+Print Assumptions C09_tcp_requests_never_wedge_on_every_model_trace.
